@@ -27,6 +27,7 @@ import os
 import math
 import logging
 from hashlib import sha1
+from itertools import islice
 from pathlib import Path
 
 import pyben
@@ -164,19 +165,31 @@ class PieceNode:
         Yields
         ------
         tuple
-            one location per pathnode whose combined data hashes to the piece
+            per pathnode the interchangeable locations whose data hashes to
+            the piece
         """
         if not paths:
             if sha1(data).digest() == self.piece:  # nosec
                 yield chosen
             return
         pathnode = paths[0]
+        # candidates holding the same bytes for this piece are
+        # interchangeable: one branch per distinct content
+        groups = {}
         for loc, size in filemap.get(pathnode.filename, []):
             if size != len(pathnode):
                 continue
-            partial = pathnode.get_part(loc)
+            groups.setdefault(pathnode.get_part(loc), []).append(loc)
+        # try first the candidates that sit in a directory named like the
+        # one the torrent puts the file in
+        parent = os.path.basename(str(pathnode.path))
+        ordered = sorted(
+            groups.items(),
+            key=lambda item: parent not in
+            [os.path.basename(os.path.dirname(loc)) for loc in item[1]])
+        for partial, locs in ordered:
             yield from self._find_matches(filemap, paths[1:], data + partial,
-                                          chosen + (loc, ))
+                                          chosen + (locs, ))
 
     def find_matches(self, filemap: dict, dest: str) -> list:
         """
@@ -195,7 +208,10 @@ class PieceNode:
             every combination of candidate locations that verifies the piece
         """
         self.dest = dest
-        self.result = list(self._find_matches(filemap, self.paths[:], bytes()))
+        # with interchangeable candidates grouped, only one combination of
+        # contents can hash to the piece: stop at the first that does
+        self.result = list(
+            islice(self._find_matches(filemap, self.paths[:], bytes()), 1))
         return self.result
 
 
@@ -373,7 +389,7 @@ class Metadata(CbMixin, ProgMixin):
             matches = piece_node.find_matches(filemap, dest)
             self._update()
             for i, pathnode in enumerate(piece_node.paths):
-                locs = [match[i] for match in matches]
+                locs = [loc for match in matches for loc in match[i]]
                 if not locs:
                     continue
                 known = verified.get(pathnode.full, locs)
